@@ -29,10 +29,10 @@ PKG = "yv-c04"
 
 # name -> (Gen_Fnmatch cfg, Gen_FnmatchFind cfg)
 ENUM = {
-    "quick": [("q_full", "full3"), ("q_bracket", "full3"), ("q_quoted", "full3"), ("q_coll", "full3"),
+    "quick": [("q_full", "full3"), ("q_wide", "wide2"), ("q_bracket", "full3"), ("q_quoted", "full3"), ("q_coll", "full3"),
               ("q_class", "class3")],
     "thorough": [("t_full", "full3"), ("t_bracket", "full3"), ("t_quoted", "full3"), ("t_coll", "full3"),
-                 ("t_class", "class3"), ("t_long", "full4"), ("q_quoted", "full3"), ("q_coll", "full3")],
+                 ("t_class", "class3"), ("t_long", "full4"), ("t_wide", "wide3"), ("q_quoted", "full3"), ("q_coll", "full3")],
 }
 SHELL = {"quick": "q_shell", "thorough": "t_shell"}
 RANDOM = {"quick": 40000, "thorough": 400000}
@@ -124,7 +124,7 @@ def _enum_one(wd, name, findcfg, rep, acc, lock, workers):
              f"{stats['mismatching_patterns']} patterns disagree)")
     with open(lines) as f:
         for i, line in enumerate(f):
-            if i == 1 + (7919 % max(1, nlines)):
+            if sample is None and i > nlines // 2 and '"m":[]' not in line and not line.startswith('{"dom"'):
                 d = json.loads(line)
                 sample = {"config": name, "pattern": pattern_text(d["c"], d["l"]), "unspecified": d["u"],
                           "match_set": d["m"][:12], "match_set_size": len(d["m"])}
